@@ -227,8 +227,7 @@ def run_in(ctx, tmpdir):
         tree = adapter.build(spec, pool, typed=typed)
         for km_name, vm_name in (combos if ctx.thorough else [combos[(k + j * 4) % 9] for j in range(3)]):
             key_map, value_map = S.KEY_MAPS[km_name], S.VALUE_MAPS[vm_name]
-            if isinstance(value_map, dict):
-                value_map = dict(value_map)
+            maps_before = (json.dumps(S.KEY_MAPS["custom"], sort_keys=True), json.dumps(S.VALUE_MAPS["custom"], sort_keys=True))
             # ONE caller-owned metadata dict for all saves (see props/c05.py): nothing of an earlier call may stick to it
             from props.c05 import SHARED_META
 
@@ -258,8 +257,12 @@ def run_in(ctx, tmpdir):
                     doc = read_doc(fpath, True)
                     os.unlink(fpath)
             except Exception as e:  # noqa
-                out.fail(case, f"save raised {e!r}")
+                dirty = S.custom_maps_dirty()
+                out.fail(case, f"save raised {e!r}" + (f" (the caller's custom maps, re-used for every save, had been written into by an earlier save(): {dirty})" if dirty else ""))
+                S.reset_custom_maps()
                 continue
+            if (json.dumps(S.KEY_MAPS["custom"], sort_keys=True), json.dumps(S.VALUE_MAPS["custom"], sort_keys=True)) != maps_before:
+                out.dist["save_wrote_into_the_callers_map"] += 1
             if SHARED_META != meta:
                 out.fail(case, f"save() changed the caller's metadata dict: {SHARED_META} (was {meta})")
                 SHARED_META.clear()
